@@ -77,10 +77,28 @@ func main() {
 			os.Exit(2)
 		}
 		fmt.Printf("%d keys\n", len(keys))
+		// flag bindings need the typed program
+		RefList = keys
+		w, lerr := Load(*repo, "", "")
+		if lerr != nil {
+			fmt.Fprintln(os.Stderr, lerr)
+			os.Exit(2)
+		}
+		fb := flagBindings(w)
+		var lines []string
+		for k, v := range fb {
+			lines = append(lines, k+"\t"+v)
+		}
+		sort.Strings(lines)
+		os.WriteFile(filepath.Join(*verif, "reference", "flags.txt"), []byte("# command-line flag bindings of the reference tree: StructType/flag-name<TAB>field (helmverif -emit-ref)\n"+strings.Join(lines, "\n")+"\n"), 0o644)
+		fmt.Printf("%d flag bindings\n", len(lines))
 		return
 	}
 	if rl, err := readRefList(refPath); err == nil && len(rl) > 0 {
 		RefList = rl
+	}
+	if fr, err := readRefList(filepath.Join(filepath.Dir(refPath), "flags.txt")); err == nil && len(fr) > 0 {
+		FlagRef = fr
 	}
 	if *prop == "all" || strings.Contains(*prop, ",") { // developer mode: several properties over one load (quick tier)
 		known, _ := loadKnown(filepath.Join(*verif, "known_findings.json"))
